@@ -79,6 +79,9 @@ func topoOf(name string) topo {
 	case "1v": // a stored integration names its source twice (dashboard-stored form), next to a plain file integration
 		t.base = mix{FileSrcs: []srcSpec{s1}, FileIGs: []igSpec{{Name: "iga", Enabled: true, Refs: []refSpec{r12("s1")}}},
 			DBIGs: []igSpec{{Name: "igc", Enabled: true, Refs: []refSpec{r12("s1"), {Name: "s1", Start: 2, Stop: 2}}}}, Stored: true}
+	case "1w": // the SAME integration stored twice (two rows of one name, dashboard-stored form), next to a plain file integration
+		t.base = mix{FileSrcs: []srcSpec{s1}, FileIGs: []igSpec{{Name: "iga", Enabled: true, Refs: []refSpec{r12("s1")}}},
+			DBIGs: []igSpec{{Name: "igc", Enabled: true, Refs: []refSpec{r12("s1")}}, {Name: "igc", Enabled: true, Refs: []refSpec{r12("s1")}}}, Stored: true}
 	case "3f": // three file integrations (the decoded slice has spare capacity); stored names sort before and after them
 		t.base = mix{FileSrcs: []srcSpec{s1}, FileIGs: f3("igc", "ige", "igg")}
 		t.newIG = igSpec{Name: "iga", Enabled: true, Refs: []refSpec{r12("s1")}}
@@ -350,8 +353,24 @@ func (ob *observer) checkMutex() {
 					}
 				}
 			}
-			if sameGen {
-				key += ":duplicate-source-ref" // ONE generation started two runners for one pair
+			if sameGen { // ONE generation started two runners for one pair
+				name, n := pair[strings.IndexByte(pair, '/')+1:], 0
+				for _, r := range ob.w.PG.Dump("shovel.integrations") {
+					if x, _ := r.Vals["name"].(string); x == name {
+						n++
+					}
+				}
+				inFile := 0
+				for _, ig := range ob.topo.base.FileIGs {
+					if ig.Name == name {
+						inFile++
+					}
+				}
+				if inFile > 1 || (inFile == 0 && n > 1) {
+					key += ":duplicate-name" // the integration's name occurs twice in the configuration
+				} else {
+					key += ":duplicate-source-ref"
+				}
 			}
 			ob.violate("mutex", key, fmt.Sprintf("pair %s is driven by %d live runner threads at once: %s", pair, len(l), strings.Join(gens, ", ")))
 		}
@@ -552,6 +571,13 @@ func sExec(j sJob, p *sPrep, win *dfsRun, states *vrt.StateSet) (res sResult) {
 			w.V.Join(startBoot())
 			restarter("rA", func() { save(p.t.newIG) })
 			restarter("rB", func() { call("restart", nil) })
+		case "resave": // the dashboard stores the same integration twice (the only way to "edit" one): two rows of one name
+			w.V.Join(startBoot())
+			restarter("rA", func() {
+				if r := save(p.t.newIG); r.Panic == "" && r.Err == "" && !w.V.Closing() {
+					save(p.t.newIG)
+				}
+			})
 		case "dupsave": // the dashboard is asked to store an integration that names its source twice
 			w.V.Join(startBoot())
 			restarter("rA", func() {
@@ -863,6 +889,8 @@ func sJobs(thorough bool) []sJob {
 		add(1, []string{"3f", "5f"}, []string{"gens"})
 		add(0, []string{"1u", "1v"}, []string{"boot"})
 		add(2, []string{"1d", "1l"}, []string{"dupsave"})
+		add(0, []string{"1w"}, []string{"boot"})
+		add(2, []string{"1d", "1l"}, []string{"resave"})
 		add(3, []string{"1d", "1c", "1l"}, []string{"b2b"})
 		add(2, []string{"1d"}, []string{"early"})
 		return jobs
@@ -874,6 +902,8 @@ func sJobs(thorough bool) []sJob {
 	add(0, []string{"3f", "5f"}, []string{"gens"}) // bound 0: the free choices only
 	add(0, []string{"1u", "1v"}, []string{"boot"})
 	add(1, []string{"1d"}, []string{"dupsave"})
+	add(0, []string{"1w"}, []string{"boot"})
+	add(1, []string{"1d"}, []string{"resave"})
 	return jobs
 }
 
